@@ -195,7 +195,17 @@ def run(ctx):
             p = Pre(h, "Vertex", (("w", "u"),), False)
             arg = mk_arg(form, [p.O[r] for r in pattern])
             try:
-                out = h.call(h.cls("Vertex"), universes=arg)
+                try:
+                    out = h.call(h.cls("Vertex"), universes=arg)
+                except Unknown as u0:
+                    if "opaque" not in str(u0):
+                        raise
+                    # the tree looks at the length / the elements of a list beyond the named entries: the same call on exact lists
+                    res.note(f"Vertex(universes={pattern} as {form}) with opaque segments: {u0} (decided on exact lists instead)")
+                    res.bounded_only = True
+                    p = Pre(h, "Vertex", (("w", "u"),), False, segs=False)
+                    arg = mk_arg(form, [p.O[r] for r in pattern])
+                    out = h.call(h.cls("Vertex"), universes=arg)
             except Unknown as u:
                 res.ob(False)
                 res.undecide(f"Vertex(universes={pattern} as {form}): {u}")
@@ -223,7 +233,16 @@ def run(ctx):
             p = Pre(h, "Vertex", (("w", "u"),), False)
             arg = mk_arg(form, [p.O[r] for r in vp])
             try:
-                out = h.call(h.cls("Universe"), vertices=arg)
+                try:
+                    out = h.call(h.cls("Universe"), vertices=arg)
+                except Unknown as u0:
+                    if "opaque" not in str(u0):
+                        raise
+                    res.note(f"Universe(vertices={vp} as {form}) with opaque segments: {u0} (decided on exact lists instead)")
+                    res.bounded_only = True
+                    p = Pre(h, "Vertex", (("w", "u"),), False, segs=False)
+                    arg = mk_arg(form, [p.O[r] for r in vp])
+                    out = h.call(h.cls("Universe"), vertices=arg)
             except Unknown as u:
                 res.ob(False)
                 res.undecide(f"Universe(vertices={vp} as {form}): {u}")
